@@ -2,6 +2,7 @@ use crate::engine::Tier;
 pub mod c03;
 pub mod c04;
 pub mod c05;
+pub mod c01;
 pub mod c02;
 pub mod c06;
 pub mod c07;
@@ -14,6 +15,9 @@ pub mod c13;
 pub mod c14;
 pub mod c15;
 pub mod c16;
+pub mod c17;
+pub mod c18;
+pub mod c19;
 pub mod c20;
 pub mod fuzzrun;
 pub mod phys;
@@ -37,6 +41,7 @@ macro_rules! registry {
     };
 }
 registry! {
+    "C01" => c01,
     "C02" => c02,
     "C03" => c03,
     "C04" => c04,
@@ -52,5 +57,8 @@ registry! {
     "C14" => c14,
     "C15" => c15,
     "C16" => c16,
+    "C17" => c17,
+    "C18" => c18,
+    "C19" => c19,
     "C20" => c20,
 }
